@@ -614,7 +614,8 @@ class CircuitFinderSat:
                 if self._gate_type_variable(gate, p, q) in model:
                     gate_tt.append(True)
                 else:
-                    assert -self._gate_type_variable(gate, p, q) in model
+                    # a variable absent from the model occurs in no clause
+                    # (all rows are don't-cares), so any value is admissible.
                     gate_tt.append(False)
 
             first_predecessor_str = (
